@@ -10,10 +10,10 @@ META = {
                  'enumerated and random occurrence schedules are injected into the real interpreter at exact statement boundaries (hook H1) and the traces validated by TLC',
     'text': 'Interp_MC_trap: 144 programs (KEY(1) ON/OFF/STOP twice in the main line, handler doing nothing/ON/OFF/STOP, optional second trap, optional trapped error) x every schedule of up to 3 occurrences '
             '(2 in the quick tier) of 2 events at any statement boundary; invariants OnlyIfOccurred, OnlyWhenOn, NotInErrorHandler, NoReentry, Prompt over independently maintained ghost state. '
-            'Code side: for every family program all schedules with one occurrence (event x boundary) and sampled/all pairs are executed on the real interpreter by putting real KEYB_DOWN / PEN_DOWN signals '
+            'Code side: for every family program all schedules with one occurrence (event x boundary) and sampled/all pairs are executed on the real interpreter by putting real KEYB_DOWN / PEN_DOWN / STICK_DOWN signals '
             'in the input queue at that boundary; random trap programs with random schedules add loops, subroutines and error handlers. Every boundary (position, output of handlers, variables) must be a step of Interp.tla; '
             'the dispatch order of simultaneously pending traps is left open.',
-    'note': 'Trusted: TLC, hook H1 (injection happens before the interpreter polls its queue at that boundary), signals for KEY(1), KEY(2), PEN. TIMER/PLAY/STRIG/COM use the same handler '
+    'note': 'Trusted: TLC, hook H1 (injection happens before the interpreter polls its queue at that boundary), signals for KEY(1), KEY(2), PEN, STRIG(0). TIMER/PLAY/COM use the same handler '
             'logic in the code (EventHandler) but are not injected (COM needs a serial endpoint, TIMER/PLAY real time). STOP of a trap that is OFF is treated as OFF (GW-BASIC semantics).',
 }
 
@@ -99,7 +99,7 @@ def run(ctx):
     def rs(rng, prog):
         s = {}
         for _ in range(rng.randint(0, 6)):
-            s.setdefault(rng.randint(1, 45), []).append(rng.choice([1, 2, 3]))
+            s.setdefault(rng.randint(1, 45), []).append(rng.choice([1, 2, 3, 4]))
         return s
     interp_check.run_family(ctx, {'ctl', 'trap', 'err'}, ctx.pick(150, 4000), size=10, schedules=rs,
                             focus={'trap': 25, 'for': 10, 'simple': 25, 'err': 5, 'gosub': 8}, direct=0.6)
